@@ -18,6 +18,9 @@ _ELEMENT_ADAPTERS = re.compile(
     r"|^std::option::Option::(map|and_then|map_or|map_or_else|filter|is_some_and)$|^std::result::Result::(map|and_then)$")
 
 
+_FOLD_ADAPTERS = re.compile(r"as std::iter::Iterator>::(fold|try_fold)$")
+
+
 def resolve(model, chain, view, origins, depth=0, taint=False, elems=False):
     """Resolve `param` origins of `view` (the callee at the end of `chain`) to origins in the
     frames above it, up to the root. Closure upvars are resolved to the parent's operands;
@@ -64,6 +67,20 @@ def resolve(model, chain, view, origins, depth=0, taint=False, elems=False):
                                     if it.kind == "item":
                                         out.add(Origin("load", it.a, None, o.proj))
                                         found = True
+                            elif elems and o.a in (2, 3) and _FOLD_ADAPTERS.search(mname(t)) and len(t["args"]) == 3 and depth < 6:
+                                if o.a == 3:
+                                    # the element
+                                    sub = cv.origins_of_operand(t["args"][0], proj=o.proj, at=cv.at_term(cb), taint=taint)
+                                    out |= resolve(model, chain[:-1], cv, sub, depth + 1, taint, elems)
+                                else:
+                                    # the accumulator: the initial value, or what the closure returned for the previous element
+                                    sub = cv.origins_of_operand(t["args"][1], proj=o.proj, at=cv.at_term(cb), taint=taint)
+                                    out |= resolve(model, chain[:-1], cv, sub, depth + 1, taint, elems)
+                                    for rb in view.return_blocks():
+                                        rs = view.origins_of_place({"l": 0, "p": []}, proj=o.proj, at=view.at_term(rb), taint=taint)
+                                        rs = {x for x in rs if not (x.kind == "param" and x.b == view.path and x.a == 2)}
+                                        out |= resolve(model, chain, view, rs, depth + 1, taint, elems)
+                                found = True
                             elif elems and o.a == 2 and _ELEMENT_ADAPTERS.search(mname(t)) and t["args"][0] is not a:
                                 # the closure's argument is an element of the adapted iterator / the payload of the option
                                 sub = cv.origins_of_operand(t["args"][0], proj=o.proj, at=cv.at_term(cb), taint=taint)
